@@ -204,6 +204,11 @@ class C16(Prop):
         r = res["main"]
         viol = []
         judged = 0
+        cells = {}
+
+        def cell(*parts):
+            k = "/".join(str(p) for p in parts)
+            cells[k] = cells.get(k, 0) + 1
         outs = r.get("outcomes") or []
         had_success = False
         for i, (op, out) in enumerate(zip(plan["ops"], outs)):
@@ -214,6 +219,7 @@ class C16(Prop):
                     had_success = True
                 if exp == "none" and out.get("ncalls"):
                     judged += 1
+                    cell("status", op["peer"]["script"]["1"]["status"], (out.get("transports") or ["?"])[0])
                     if out.get("status") == "ok" and val is not None:
                         viol.append({"oracle": "O-ERR", "signature": "solve-returns-a-number-for-a-no-solution-status:"
                                      + (out.get("transports") or ["?"])[0],
@@ -233,6 +239,7 @@ class C16(Prop):
                                          "detail": {"value": val, "kind": exp}})
                 elif exp == "raise":
                     judged += 1
+                    cell("invalid-option", "solve")
                     if out.get("status") != "exc":
                         viol.append({"oracle": "O-ERR", "signature": "invalid-option-accepted:solve",
                                      "detail": {"cfg": op["cfg"], "value": val}})
@@ -247,6 +254,7 @@ class C16(Prop):
                                          "detail": {"script": sc, "value": val, "twin": tw.get("value")}})
             elif op.get("_expect") == "raise":
                 judged += 1
+                cell("invalid-option", op.get("kind", op["op"]))
                 if out.get("status") != "exc":
                     viol.append({"oracle": "O-ERR", "signature": "invalid-option-accepted:" + op.get("kind", op["op"]),
                                  "detail": {"args": {k: v for k, v in op["args"].items() if not str(v).startswith("@")}}})
@@ -256,6 +264,7 @@ class C16(Prop):
                 judged += 1
                 kind = op["_kind"]
                 acc = op["op"]
+                cell("accessor", kind.split(":")[0], acc, plan.get("state"), plan.get("tag", "").split("/")[-1])
                 if kind == "dual-tables":
                     if out.get("status") == "exc" and out.get("exc_type") != "ValueError":
                         viol.append({"oracle": "O-ERR", "signature": "dual-tables-before-success-raise:" + out["exc_type"],
@@ -279,7 +288,7 @@ class C16(Prop):
             if v["signature"] not in seen:
                 seen.add(v["signature"])
                 outv.append(v)
-        return outv, {"nontrivial": judged > 0, "noverdict": judged == 0}
+        return outv, {"nontrivial": judged > 0, "noverdict": judged == 0, "counters": cells}
 
     def accept_oracle(self, oracle):
         return oracle == "O-ERR"
